@@ -44,6 +44,41 @@ CHECKS = {
    note="abs at 0 and zero divisors are excluded (documented as undefined).",
    technique="property-based testing (proptest, shrinking) with metamorphic (derivative-replacement) and algebraic-law oracles",
    design="5/C19"),
+ "C11": dict(
+   text="600k random (rule, node set, query dates) cases per quick run (10M thorough): 2-12 nodes with spacings from 1 second to ~6 years, shuffled or sorted supply, queries before / after / exactly on / 1 s beside / between nodes; each curve is built through the generic constructor (shuffled and sorted) and through the Python-facing constructor (hook), all three must agree bit-for-bit and compare equal; the interval index must equal the linear-scan model and the value the closed form of the rule (1e-12 x conditioning, flat rules exact); node dates return node values; betweenness for linear / log-linear; index_left is additionally driven directly on float lists through the hook.",
+   note="Tolerance scales with a conditioning factor of the rule at the query point (large only for absurd extrapolation or a seconds-long first interval under the zero-rate rule).",
+   technique="property-based testing (proptest, shrinking) against closed-form reference interpolation and a three-way constructor differential",
+   design="5/C11"),
+ "C12": dict(
+   text="Model-based testing of order histories: 60k random (curve, constructor, initial order, 0-6 switches over {0,1,2}, queries) cases per quick run (1.5M thorough) with float nodes and nodes given as first / second-order numbers with custom variable names; a model tracks the tagging (none / id+i in date order / custom) through every transition; after construction and every switch each look-up must keep its value, be of the curve's order, and have gradient and Hessian BY NAME equal to the closed-form partials of the interpolation formula combined by the chain rule (zero outside the interval); ad() and index_value (value, order, gradient, zero before the first node, error without base) are checked too. All 9 transitions have floors.",
+   note="Derivative checks are skipped (counted) where the value is beyond 1e+-30 (absurd extrapolation).",
+   technique="stateful model-based property testing (switch sequences, proptest shrinking) with closed-form derivative oracle",
+   design="5/C12"),
+ "C13": dict(
+   text="40k random systems per quick run (1M thorough): square 1-8 and tall up to 14x6, built as (unit lower or identity) x (sparse upper) with shuffled rows so that partial pivoting must swap rows (also in later columns, with zeros on the diagonal), entries lifted to derivative content over 3 names with differing layouts, through dsolve::<f64|Dual|Dual2|Number> (Number mixing floats with a dual kind) and fdsolve with b of f64|Dual|Dual2. The returned x, read by name, must satisfy A x = b and the once and twice differentiated systems (normal equations for least squares) with residuals <= 1e-9 x cond x scale, and be unchanged under a row permutation of the system.",
+   note="Only well-conditioned draws (cond_1 < 1e6, own estimate) are judged; singular systems are outside the property.",
+   technique="property-based testing (proptest, shrinking) with a residual oracle on differentiated linear systems and a row-permutation metamorphic relation",
+   design="5/C13"),
+ "C14": dict(
+   text="400k random (order, knot sequence, evaluation points) cases per quick run (8M thorough), and for every point ALL basis indices and ALL derivative orders 0..k+1: equality with the Cox-de Boor recursion carried out independently on polynomial coefficient vectors per knot span (right limit, left limit at the right end point), non-negativity, exact zero outside the support, partition of unity, derivative sums zero, exact zero for m >= k. Points are drawn exactly on knots (incl. repeated interior knots up to multiplicity k-1), at both end points, at the doubles adjacent to knots, at midpoints and uniformly.",
+   note="Knots lie on a quarter grid so that evaluation exactly at knots is representable; spans 0.25..4.",
+   technique="property-based testing (proptest, shrinking) against an independent piecewise-polynomial reference",
+   design="5/C14"),
+ "C15": dict(
+   text="40k random solves per quick run (1M thorough): orders 2-6, Greville sites with end rows of derivative order 0-2 or the callers' natural / clamped layout for order 4, random or polynomial data, float / first-order / second-order data, optional least squares. Coefficients x the independent reference basis must reproduce every data row and end condition; polynomial data are reproduced with all derivatives everywhere; library evaluation == coefficients x reference basis; dual abscissae return s', s''; sensitivities to data equal the independently inverted collocation matrix (and the library's own unit-data spline) with zero Hessian; the spline-kind x abscissa-kind table returns matching kinds and refuses first/second-order mixes; unsolved evaluation and mismatched lengths are errors.",
+   note="Site sets are admissible by construction; draws with cond >= 1e8 are skipped and counted (about 1%).",
+   technique="property-based testing (proptest, shrinking) against an independent basis + linear-algebra reference and a polynomial-reproduction oracle",
+   design="5/C15"),
+ "C16": dict(
+   text="40k random objects per quick run (1.5M thorough) of every serialisable type, each through every path that exists for it (direct JSON, tagged from_json entry point via the hook, bincode): load(save(x)) must equal x under the type's own equality AND answer a per-type query set bit-identically; doubles are raw bit patterns / full random mantissas (17 significant digits), names include unicode and characters needing escaping; named calendars must be stored by name only and FX markets as quotes + currencies only. 24 per-type / per-state floors.",
+   note="NaN/inf excluded; FX markets saved in second-order state are compared by value and rate table only (lowering second order reproduces a first-order build only to the last bit).",
+   technique="property-based testing (proptest, shrinking) with round-trip oracles over three serialisation paths",
+   design="5/C16"),
+ "C20": dict(
+   text="250k random cases per quick run (6M thorough) in three families under catch_unwind: (A) every result-returning constructor / operation with arbitrary arguments of the declared types, with Ok/Err predicted by explicit models (length rules, 3-letter rule, union-find for FX, name parser, own rank test classifying csolve's collocation matrix); (B) day / business-day / lag / month arithmetic and adjustment over the whole i8 range, month offsets landing in 1970-2200, roll days 1-31 on arbitrary calendars; (C) valid JSON documents of 14 kinds, direct and tagged, with 1-3 structural mutations (delete, duplicate key/element, replace, wrong string, resize, perturb): no panic, and every accepted object is re-saved and must satisfy the shape rules of numbers and splines; loaded FX markets must answer all rates. Known findings are matched on (entry point, input class, panic site) and excluded from the search so that it continues behind them. The thorough tier adds a coverage-guided libFuzzer campaign on the JSON entry points.",
+   note="One known finding is listed (csolve on a singular collocation matrix panics); five defects found by this check were repaired in /repo.",
+   technique="property-based testing (proptest, shrinking) + structural JSON mutation fuzzing with panic capture and contract models; libFuzzer in the thorough tier",
+   design="5/C20"),
  "C05": dict(
    text="Generated-input search against a count model: ~120k random (calendar, start date, operation, day count, flag) cases per quick run (2M thorough) covering add_bus_days, lag, bus_date_range and add_days, with day counts over the whole i8 range weighted to 0, +-1, +-2, +-127 and -128, business and non-business starts, plus an enumeration of all 256 day counts x both flags x three operations on sampled (built-in calendar, date) pairs. The oracle counts business days one at a time over the calendar's own predicates, applies the settlement roll in the direction of n, and asserts the inverse law and the error contract. Exploration only: it shows agreement on everything generated, not for every calendar.",
    note="Trusts is_bus_day/is_settlement of the calendar (C06/C07). lag(non-business date, 0, settlement=true) is under-specified by the documentation; both readings are accepted.",
